@@ -3,8 +3,10 @@ package c07
 import (
 	"bytes"
 	"fmt"
+	"strconv"
 	"strings"
 	"testing"
+	"unicode/utf8"
 
 	"github.com/tdewolff/parse/v2"
 	"github.com/tdewolff/parse/v2/css"
@@ -39,7 +41,8 @@ func escape(t *rapid.T) string {
 			// fewer than six digits are ended by any character that is not a hex digit
 			return `\` + rapid.StringMatching(`[0-9a-fA-F]{1,5}`).Draw(t, "hex5") + rapid.SampledFrom([]string{"g", "z", "-", "_", "é", "G"}).Draw(t, "hexend")
 		case 2:
-			return `\` + rapid.StringMatching(`[0-9a-fA-F]{1,6}`).Draw(t, "hex") + rapid.SampledFrom([]string{" ", "\t", "\n", "\f"}).Draw(t, "hexws")
+			// one whitespace character ends the escape and belongs to it; \r\n counts as one
+			return `\` + rapid.StringMatching(`[0-9a-fA-F]{1,6}`).Draw(t, "hex") + rapid.SampledFrom([]string{" ", "\t", "\n", "\f", "\r\n", "\r\n"}).Draw(t, "hexws")
 		}
 		return `\` + rapid.StringMatching(`[0-9a-fA-F]{1,6}`).Draw(t, "hex") + " "
 	}
@@ -80,8 +83,38 @@ func nameChars(t *rapid.T, min, max int) string {
 	return sb.String()
 }
 
+// isURLName: the identifier spells url once its escapes are decoded (CSS Syntax 4.3.4: the check is on the value)
 func isURLName(s string) bool {
-	return strings.EqualFold(strings.ReplaceAll(s, `\`, ""), "url")
+	var out []rune
+	for i := 0; i < len(s); {
+		r, n := utf8.DecodeRuneInString(s[i:])
+		i += n
+		if r != '\\' || i >= len(s) {
+			out = append(out, r)
+			continue
+		}
+		j := i
+		v := 0
+		for j < len(s) && j-i < 6 && strings.IndexByte("0123456789abcdefABCDEF", s[j]) >= 0 {
+			d, _ := strconv.ParseInt(s[j:j+1], 16, 32)
+			v = v<<4 | int(d)
+			j++
+		}
+		if j == i {
+			r, n = utf8.DecodeRuneInString(s[i:])
+			i += n
+			out = append(out, r)
+			continue
+		}
+		if strings.HasPrefix(s[j:], "\r\n") {
+			j += 2
+		} else if j < len(s) && strings.IndexByte(" \t\n\r\f", s[j]) >= 0 {
+			j++
+		}
+		i = j
+		out = append(out, rune(v))
+	}
+	return strings.EqualFold(string(out), "url")
 }
 
 func ident(t *rapid.T) string {
@@ -123,7 +156,7 @@ func stringTok(t *rapid.T, bad bool) string {
 	var sb strings.Builder
 	sb.WriteString(q)
 	for i := 0; i < n; i++ {
-		sb.WriteString(rapid.SampledFrom([]string{"a", " ", "é", other, `\` + q, `\\`, `\41 `, "\\\n", "\\\r\n", "\\\f", "/*", "*/", "url(", ")", "{", ";", "<!--", "\t", "\x00"}).Draw(t, "strpart"))
+		sb.WriteString(rapid.SampledFrom([]string{"a", " ", "é", other, `\` + q, `\\`, `\41 `, "\\26\r\n", "\\26\r\nB", "\\\n", "\\\r\n", "\\\f", "/*", "*/", "url(", ")", "{", ";", "<!--", "\t", "\x00"}).Draw(t, "strpart"))
 	}
 	if bad {
 		sb.WriteString(rapid.SampledFrom([]string{"\n", "\f", "\r"}).Draw(t, "rawnl"))
@@ -137,7 +170,20 @@ func urlName(t *rapid.T) string {
 	// any ASCII case, each letter optionally written as a simple escape (u, r and l are not hex digits)
 	var sb strings.Builder
 	for _, c := range "url" {
-		switch rapid.IntRange(0, 5).Draw(t, "urlletter") {
+		switch rapid.IntRange(0, 8).Draw(t, "urlletter") {
+		case 6, 7:
+			// a hexadecimal escape of the lower- or upper-case letter: up to six digits, optionally ended by one whitespace
+			// (the next character of the name, or the parenthesis, is not a hex digit)
+			v := int(c)
+			if rapid.Bool().Draw(t, "urlhexupper") {
+				v -= 32
+			}
+			h := fmt.Sprintf("%x", v)
+			if rapid.Bool().Draw(t, "urlhexcase") {
+				h = strings.ToUpper(h)
+			}
+			h = strings.Repeat("0", rapid.IntRange(0, 4).Draw(t, "urlhexpad")) + h
+			sb.WriteString(`\` + h + rapid.SampledFrom([]string{"", "", " ", "\t", "\n", "\r\n", "\f"}).Draw(t, "urlhexend"))
 		case 0:
 			sb.WriteString(strings.ToUpper(string(c)))
 		case 1:
